@@ -4,6 +4,7 @@ import ast
 from sa.cfg import cfg_of
 from sa.program import dotted, norm, own_nodes, const_str
 from sa.util import (assignments_to, cfg_node_of, enclosing_loops, guards_at, stmt_text)
+from sa.util import compare_parts as compare_parts_
 from . import shared
 from .roles import VIEWS, roles
 
@@ -70,7 +71,16 @@ def run(ctx):
              f"handles the events 'f' and 'f.<anything>'", x)
     # the partial predicate: 'p.*' matches p itself and anything starting with 'p.'
     preds = [x for x in own_nodes(md.node) if isinstance(x, ast.BoolOp) and isinstance(x.op, ast.Or) and "startswith" in norm(x) and "==" in norm(x)]
-    ok = any("prefix + '.'" in norm(x) for x in preds)
+    ok = False
+    for x in preds:
+        eqs = [compare_parts_(v) for v in x.values]
+        eqs = [(norm(cp[0]), norm(cp[2])) for cp in eqs if cp is not None and isinstance(cp[1], ast.Eq)]
+        for v in x.values:
+            if isinstance(v, ast.Call) and isinstance(v.func, ast.Attribute) and v.func.attr == "startswith" and v.args and isinstance(v.args[0], ast.BinOp) \
+                    and isinstance(v.args[0].op, ast.Add) and const_str(v.args[0].right) == ".":
+                ev, pfx = norm(v.func.value), norm(v.args[0].left)
+                if (ev, pfx) in eqs or (pfx, ev) in eqs:
+                    ok = True
     c.ob("R1", ok, md, "partial-predicate", "'p.*' matches 'p' and 'p.<anything>'" if ok else
          "the partial-descriptor predicate is no longer 'event == p or event.startswith(p + \".\")'", md.node)
     # ---- R2 internal-event cut-off ---------------------------------------------------------
